@@ -559,7 +559,19 @@ class SymFloat:
     def __round__(self, ndigits=None):
         """round(x): to the nearest integer, ties to even (python 3); round(x, n) is not modelled"""
         if ndigits is not None:
-            raise E.Unsupported('round(x, ndigits) of a symbolic float')
+            if self.ieee or not isinstance(ndigits, int) or isinstance(ndigits, bool) or not (-8 <= ndigits <= 12):
+                raise E.Unsupported('round(x, ndigits) of a symbolic float')
+            # reals-with-rounding model: the decimal rounding (ties to even) of the value, then the nearest double of that decimal
+            # (CPython rounds the exact binary value correctly; in this model the value IS the real number, candidates are replayed)
+            from . import floatmodel
+            p = z3.RealVal(10) ** ndigits if ndigits >= 0 else 1 / (z3.RealVal(10) ** (-ndigits))
+            y = self.term * z3.RealVal(10 ** ndigits) if ndigits >= 0 else self.term / z3.RealVal(10 ** (-ndigits))
+            fl = z3.ToInt(y)
+            frac = y - z3.ToReal(fl)
+            half = z3.RealVal('1/2')
+            r = z3.If(frac < half, fl, z3.If(frac > half, fl + 1, z3.If(fl % 2 == 0, fl, fl + 1)))
+            q = z3.ToReal(r) / z3.RealVal(10 ** ndigits) if ndigits >= 0 else z3.ToReal(r) * z3.RealVal(10 ** (-ndigits))
+            return SymFloat(floatmodel.rnd(q))
         if self.ieee:
             return SymInt(z3.fpToSBV(z3.RNE(), self.term, z3.BitVecSort(BVW)))
         x = self.term
